@@ -493,7 +493,7 @@ pub fn run(ctx: &Ctx) {
         check_pair,
     );
     let max_len = t.pick(300usize, 2000);
-    ctx.generated("random-pairs", "pair", t.pick(200_000, 6_000_000), "1..max digits, any scales/signs; divisors 2^i*5^j; terminating near 100 digits; a = q*b +- r with long q; equal integers (also with opposite signs); divisors of value +-1 / 10^k in non-canonical form; quotients terminating after exactly P-3..P+3 digits; |a| << / >> |b|; remainders next to half the divisor at the rounding position (a = Q*b + b/2 +- 1 with Q of P digits); zero divisors", move || pair_strategy(max_len), check_pair);
-    ctx.generated("random-prims", "prim", t.pick(100_000, 2_000_000), "random decimal x primitive integer of random type (specials 0, +-1, +-2, MIN, MAX), 9 overloads each", move || prim_strategy(max_len.min(150)), check_prim);
-    ctx.generated("random-floats", "float", t.pick(60_000, 2_000_000), "random decimal x normal f32/f64 (specials +-1, +-2, 0.1, 3, 1e10; exponents mostly within +-40, one case in six anywhere in the normal range incl. MAX / MIN_POSITIVE), 9 overloads each", move || float_strategy(max_len.min(150)), check_float);
+    ctx.generated("random-pairs", "pair", t.pick(600_000, 6_000_000), "1..max digits, any scales/signs; divisors 2^i*5^j; terminating near 100 digits; a = q*b +- r with long q; equal integers (also with opposite signs); divisors of value +-1 / 10^k in non-canonical form; quotients terminating after exactly P-3..P+3 digits; |a| << / >> |b|; remainders next to half the divisor at the rounding position (a = Q*b + b/2 +- 1 with Q of P digits); zero divisors", move || pair_strategy(max_len), check_pair);
+    ctx.generated("random-prims", "prim", t.pick(200_000, 2_000_000), "random decimal x primitive integer of random type (specials 0, +-1, +-2, MIN, MAX), 9 overloads each", move || prim_strategy(max_len.min(150)), check_prim);
+    ctx.generated("random-floats", "float", t.pick(150_000, 2_000_000), "random decimal x normal f32/f64 (specials +-1, +-2, 0.1, 3, 1e10; exponents mostly within +-40, one case in six anywhere in the normal range incl. MAX / MIN_POSITIVE), 9 overloads each", move || float_strategy(max_len.min(150)), check_float);
 }
